@@ -5,8 +5,9 @@ import Hive.Gen.C16_Calls
 # C16 — lock-script obligations over the regenerated skeletons
 
 See `Hive/Model/WorkerPoolLock.lean` for what a lock script is and what is hand-written.  The goroutine entry points
-(`roots`) are the exported calls `Start`, `Submit`, `Shutdown`, `IsRunning`, `WorkerCount` and the pool's own goroutines
-`dispatcher` and `worker`; each is expanded with the bodies of everything it calls (into `syncutils.Stack` and
+(`roots`) are the exported calls `Start`, `Submit`, `Shutdown`, `IsRunning`, `WorkerCount`, the pool's own goroutines
+`dispatcher` and `worker`, and what clients call on the pool's exported fields (`PendingTasksCounter.WaitIsZero` / `Get`,
+`Queue.WaitSizeIsAbove` / `Size`); each is expanded with the bodies of everything it calls (into `syncutils.Stack` and
 `syncutils.Counter`, and through `Task.run` / `Task.markDone` / `doneCallback` back into the pool) and scanned.
 `DebounceFunc` is not a root (its closures are outside the frame discipline of the scan; it has its own protocol model).
 Subscriber callbacks of the counters (user code, and the groups' aggregation, which only touches *other* counters) and
@@ -58,7 +59,18 @@ def root (n : String) : List ETok := match env.find (s "WorkerPool") (s n) with
 
 
 
-def roots : List String := ["Start", "Submit", "Shutdown", "IsRunning", "WorkerCount", "dispatcher", "worker"]
+/-- Entry points: (root name, type, function, receiver).  The pool's exported calls and its own goroutines, and what clients
+call on the pool's exported fields (`PendingTasksCounter.WaitIsZero/Get`, `Queue.WaitSizeIsAbove/Size` — the protocol
+model has clients doing exactly these). -/
+def rootTable : List (String × String × String × String) :=
+  [("Start", "WorkerPool", "Start", "w"), ("Submit", "WorkerPool", "Submit", "w"), ("Shutdown", "WorkerPool", "Shutdown", "w"),
+   ("IsRunning", "WorkerPool", "IsRunning", "w"), ("WorkerCount", "WorkerPool", "WorkerCount", "w"),
+   ("dispatcher", "WorkerPool", "dispatcher", "w"), ("worker", "WorkerPool", "worker", "w"),
+   ("counter.WaitIsZero", "Counter", "WaitIsZero", "w.PendingTasksCounter"),
+   ("counter.Get", "Counter", "Get", "w.PendingTasksCounter"),
+   ("queue.WaitSizeIsAbove", "Stack", "WaitSizeIsAbove", "w.Queue"), ("queue.Size", "Stack", "Size", "w.Queue")]
+
+def roots : List String := rootTable.map (·.1)
 
 /-- Lock ranks: every goroutine acquires in strictly increasing rank (stack mutex, pool mutex, counter value mutex,
 counter subscriber mutex). -/
@@ -80,9 +92,12 @@ structure RootReport where
 deriving DecidableEq, Repr
 
 def script (e : Env) (r : String) : List ETok :=
-  match e.find (s "WorkerPool") (s r) with
-  | some f => expandFn e 12 f (s "w")
+  match rootTable.find? (fun x => x.1 == r) with
   | none => []
+  | some x =>
+    match e.find (s x.2.1) (s x.2.2.1) with
+    | some f => expandFn e 12 f (s x.2.2.2)
+    | none => []
 
 def reportOf (e : Env) (r : String) : RootReport :=
   let sc := scan conds (script e r)
@@ -120,7 +135,8 @@ def expectedReport : List RootReport :=
    clean "worker" [("w.PendingTasksCounter.valueMutex", "w.PendingTasksCounter.subscribersMutex")]
      ["element.workerFunc", "w.PendingTasksCounter.subscribers.ForEach", "task.workerFunc"] []
      [("w.PendingTasksCounter.subscribers.ForEach",
-       ["w.PendingTasksCounter.subscribersMutex", "w.PendingTasksCounter.valueMutex"])]]
+       ["w.PendingTasksCounter.subscribersMutex", "w.PendingTasksCounter.valueMutex"])],
+   clean "counter.WaitIsZero" [], clean "counter.Get" [], clean "queue.WaitSizeIsAbove" [], clean "queue.Size" []]
 
 /-- Rank of a mutex (0 for a mutex that is not in the table: it can only be taken with nothing held). -/
 def rk (m : Str) : Nat := (rankOf ranks m).getD 0
